@@ -37,6 +37,14 @@ Judge(e) ==
          /\ m.ok
          /\ PalOK(e.pal, m.m.pal)
          /\ e.ok = 1 /\ e.got = m.m.pal
+    [] e.ev = "palopt" ->
+         \* the encoder's stream decoded with WithColorAt(e.adj, e.c): the delivered palette is the specification's
+         \* suggested palette with that one entry replaced - every other valid entry untouched
+         LET m == ParseMeta(e.b)
+             oc == << e.c[2], e.c[3], e.c[4], e.c[5] >> IN
+         /\ m.ok /\ e.ok = 1
+         /\ PalOK(e.pal, m.m.pal)
+         /\ e.got = [m.m.pal EXCEPT ![e.adj + 1] = oc]
     [] e.ev = "paldec" ->
          \* a hand-built stream (suggested palettes no encoder writes: 1-byte entries that are palette or
          \* register references, non-premultiplied entries): the real decoder delivers the specification's palette
